@@ -10,6 +10,7 @@
      PATCH /model {Encoding}  (v1modelHandler.reInitialiseModelWithEncoding) live := decoded clone; then snapshot := live
      GET  /model, .../actions/active, .../subcatchment/<id>, .../applicable    read the snapshot
      a rejected write (400)   no step on the shared state
+     a request on which the handler panics before changing anything (D12d, used to probe the deferred Unlock)
 
    A case carries the batch, the order in which the mux processed it (logged inside the lock) and the implementation's
    answers; the checker runs the model's SERIAL execution in that order and compares every response and the final
@@ -27,7 +28,8 @@ Inductive req : Type :=
 | RSet (sets : list (nat * bool))
 | RRep (f : flags)
 | RGet (idxs : list nat)
-| RNoop.
+| RNoop
+| RPanic.
 
 Definition set_step (ib : nat * bool) : astep est eresp :=
   fun s l => ((upd (fst s) (fst ib) (snd ib), snd s), l, false).
@@ -39,6 +41,9 @@ Definition get_step (idxs : list nat) : astep est eresp :=
   fun s _ => (s, (200, map (fun i => nth i (snd s) false) idxs), false).
 Definition reject_step : astep est eresp :=
   fun s _ => (s, (400, []), false).
+(* the handler panics before it touched anything: no response is written (status 0 = none observed) *)
+Definition panic_step : astep est eresp :=
+  fun s _ => (s, (0, []), true).
 
 Definition body_of (r : req) : list (astep est eresp) :=
   match r with
@@ -46,6 +51,7 @@ Definition body_of (r : req) : list (astep est eresp) :=
   | RRep f => [rep_step f; snap_step]
   | RGet idxs => [get_step idxs]
   | RNoop => [reject_step]
+  | RPanic => [panic_step; snap_step]   (* the rest of the body is skipped *)
   end.
 
 Definition prog_of (r : req) : prog est eresp := {| l0 := (0, []); body := body_of r |}.
